@@ -255,7 +255,9 @@ class Scenario:
                 body = body.replace(MARKB, s.encode("ascii", "replace"))
             if enc != "raw":
                 pre, post, enc = _adapt_encoding(wire, t, enc)
+        psize = extra["psize"] if isinstance(extra, dict) and out == "emitted" else -1
         return {"ev": "ser", "scen": self.name, "place": place, "out": out, "exc": exc, "wire": list(wire),
+                "psize": psize,
                 "sup": sup, "enc": enc, "orig": list(cps), "unit": self.unit,
                 "line": t["line"], "pre": list(pre), "post": list(post), "nfields": t["nfields"],
                 "body": list(body), "pos": self.pos, "cls": G.classes_of(cps) if (tbl and self.tbl) else [],
@@ -437,7 +439,9 @@ def build_scenarios() -> List[Scenario]:
             _p, tr, w = kit.new_writer()
             box.append(tr)
             mp = make(kit, s)
+            size = mp.size               # declared before the first byte is written
             await mp.write(w)
+            return {"psize": -1 if size is None else int(size)}
         return go
 
     def mpw() -> Any:
@@ -1001,26 +1005,59 @@ def run_recipe(kit: Kit, r: dict) -> dict:
                          psize=psize, pwritten=pwritten, recipe=r, err=err, pclass=pclass)
     if api == "client":
         pre = r.get("pre") or []
-        psize, pwritten, pclass = standalone(kit, kind, chunks, pre)
-        obj, entity = make_payload(kit, kind, chunks)
-        if entity is None or ("append" in pre and kind in MULTIPART_KINDS):
-            entity = pwritten
-        if pre:
-            obj = payload_of(obj)
-            apply_pre(kit, obj, pre)
+        first = r.get("first")
+        if kind == "none":                       # only as the replacement body of update_body(None)
+            obj, entity = None, b""
+        else:
+            psize, pwritten, pclass = standalone(kit, kind, chunks, pre)
+            obj, entity = make_payload(kit, kind, chunks)
+            if entity is None or ("append" in pre and kind in MULTIPART_KINDS):
+                entity = pwritten
+            if pre:
+                obj = payload_of(obj)
+                apply_pre(kit, obj, pre)
         headers = kit.CIMultiDict()
         if r.get("ulen", -1) >= 0:
             headers["Content-Length"] = str(r["ulen"])
         box: List[Any] = []
+        z = r.get("z", "")
         try:
-            req = kit.client_req(r.get("method", "POST"), data=obj, headers=headers,
-                                 chunked=r.get("chunked_arg"), compress=r.get("z") or False)
+            if first is None:
+                req = kit.client_req(r.get("method", "POST"), data=obj, headers=headers,
+                                     chunked=r.get("chunked_arg"), compress=z or False)
+            else:
+                # the body is replaced after construction (ClientRequest.update_body, the documented
+                # way for client middlewares): the request was built for another body
+                fobj = None
+                if first["kind"] != "none":
+                    fobj = make_payload(kit, first["kind"], [letters(o, n) for o, n in first["chunks"]])[0]
+                req = kit.client_req(r.get("method", "POST"), data=fobj, headers=headers,
+                                     chunked=r.get("chunked_arg"), compress=z or False)
+                kit.run(req.update_body(obj))
+                kit.loop.run_until_idle()
+            grow = r.get("grow", 0)
+            if grow:
+                # the underlying file / buffer grows between the declaration (request built) and the write
+                more = bytes(65 + (k % 26) for k in range(grow))
+                if kind == "bytesio":
+                    pos = obj.tell()
+                    obj.seek(0, 2)
+                    obj.write(more)
+                    obj.seek(pos)
+                else:
+                    with open(obj.name, "ab") as f:
+                        f.write(more)
             kit.run(kit.client_send(req, box))
         except Exception as e:  # noqa: BLE001
             err = type(e).__name__
         kit.loop.run_until_idle()
         wire = bytes(box[0].written) if box else b""
-        return msg_event(kind, "req", wire, entity, ulen=r.get("ulen", -1), z=r.get("z", ""), psize=psize,
+        if first is not None:
+            # whether the replacement body is coded is the request's decision: read it off the head it sent
+            low = wire.partition(b"\r\n\r\n")[0].lower()
+            z = "deflate" if b"\r\ncontent-encoding: deflate" in low else \
+                "gzip" if b"\r\ncontent-encoding: gzip" in low else ""
+        return msg_event(kind, "req", wire, entity, ulen=r.get("ulen", -1), z=z, psize=psize,
                          pwritten=pwritten, recipe=r, err=err, pclass=pclass)
     raise MachineryError(f"unknown api {api}")
 
@@ -1064,8 +1101,13 @@ def recipes_from_calls(mode: dict, calls: List[Tuple[str, int, bool]], rng: Any,
     carg = [None, True, False][k % 3] if not mode["compress"] else None
     culen = mode["length"] if (carg is None and not mode["compress"] and mode["length"] >= 0 and k % 2 == 0
                                and kind not in NO_LENGTH_LIMIT) else -1
-    out.append({"api": "client", "kind": kind, "chunks": pchunks, "chunked_arg": carg, "ulen": culen,
-                "z": "deflate" if mode["compress"] else "", "pre": pre})
+    rec = {"api": "client", "kind": kind, "chunks": pchunks, "chunked_arg": carg, "ulen": culen,
+           "z": "deflate" if mode["compress"] else "", "pre": pre}
+    if k % 4 == 1 and culen < 0:
+        rec["first"] = FIRST_BODIES[(k // 4) % len(FIRST_BODIES)]
+    elif k % 4 == 3 and kind in GROWABLE and carg is None and not mode["compress"] and culen < 0:
+        rec["grow"] = 1 + k % 5
+    out.append(rec)
     return out
 
 
@@ -1077,6 +1119,11 @@ def pre_steps(kind: str, j: int) -> List[str]:
     if kind in MULTIPART_KINDS:
         opts += [["size", "append"], ["send", "append", "size", "mutate"]]
     return opts[j % len(opts)]
+
+
+FIRST_BODIES = [{"kind": "none", "chunks": []}, {"kind": "bytes", "chunks": [(7, 4)]},
+                {"kind": "asyncgen", "chunks": [(7, 2), (9, 2)]}]
+GROWABLE = ("file", "textio", "bytesio")
 
 
 def fixed_recipes() -> List[dict]:
@@ -1094,16 +1141,32 @@ def fixed_recipes() -> List[dict]:
                 if kind != "asyncgen":
                     out.append({"api": "response", "kind": kind, "chunks": pc, "chunked": False, "z": "",
                                 "pre": pre})
+        # body replaced after construction; the request was built without a body, for a sized one, for an unsized one
+        for fi, first in enumerate(FIRST_BODIES):
+            for z in ("", "deflate"):
+                out.append({"api": "client", "kind": kind, "chunks": pc, "chunked_arg": (None, None, True, False)[(fi + len(out)) % 4]
+                            if not z else None, "ulen": -1, "z": z, "first": first})
+        # the file / buffer grows between building the request (Content-Length declared) and writing the body
+        if kind in GROWABLE:
+            for base in (pc, [(0, 0)]):
+                out.append({"api": "client", "kind": kind, "chunks": base, "chunked_arg": None, "ulen": -1, "z": "",
+                            "grow": 4})
         for carg in (None, True, False):
             out.append({"api": "client", "kind": kind, "chunks": pc, "chunked_arg": carg, "ulen": -1, "z": ""})
         out.append({"api": "client", "kind": kind, "chunks": pc, "chunked_arg": None, "ulen": -1, "z": "deflate"})
         if kind not in NO_LENGTH_LIMIT:
-            out.append({"api": "client", "kind": kind, "chunks": pc, "chunked_arg": None, "ulen": 2, "z": ""})
+            total = sum(n for _o, n in pc)
+            for ulen in (0, 1, 2, total, total + 3):       # a cap of exactly 0, inside, exact, beyond
+                out.append({"api": "client", "kind": kind, "chunks": pc, "chunked_arg": None, "ulen": ulen, "z": ""})
         if kind != "asyncgen":
             out.append({"api": "response", "kind": kind, "chunks": pc, "chunked": False, "z": ""})
             out.append({"api": "response", "kind": kind, "chunks": pc, "chunked": True, "z": ""})
             out.append({"api": "response", "kind": kind, "chunks": pc, "chunked": False, "z": "gzip"})
             out.append({"api": "response", "kind": kind, "chunks": pc, "chunked": False, "z": "", "method": "HEAD"})
+    for first in FIRST_BODIES[1:]:
+        for z in ("", "deflate"):
+            out.append({"api": "client", "kind": "none", "chunks": [], "chunked_arg": None, "ulen": -1, "z": z,
+                        "first": first})
     for method, status in (("HEAD", 200), ("GET", 204), ("GET", 304), ("GET", 200)):
         for eof_data in (False, True):
             out.append({"api": "stream-response", "chunks": ch, "eof_data": eof_data, "chunked": False, "ulen": -1,
@@ -1121,7 +1184,7 @@ def fixed_recipes() -> List[dict]:
 
 # ================================================================== judging
 KEEP = {"ser": ("ev", "out", "wire", "sup", "enc", "line", "pre", "post", "nfields", "body", "pos", "cls", "tbl",
-                "unit"),
+                "unit", "psize"),
         "msg": ("ev", "pclass", "role", "wire", "data", "ulen", "z", "inflated", "zlen", "bodyless", "psize",
                 "pwritten", "err"),
         "op": ("ev", "op", "data", "big", "wlen", "nwr", "err", "blocked", "inflated", "zlen")}
@@ -1145,11 +1208,15 @@ def signature_of(t: dict, v: Any) -> str:
     if ev["ev"] == "msg":
         r = ev.get("recipe", {})
         bits = [r.get("api", "?"), "kind=" + ev["kind"]]
-        for k in ("chunked_arg", "chunked", "ulen", "z", "method", "status", "eof_data", "pre"):
+        for k in ("chunked_arg", "chunked", "ulen", "z", "method", "status", "eof_data", "pre", "grow"):
             if k in r and r[k] not in (None, "", -1, False):
                 bits.append(f"{k}={r[k]}")
             elif k == "chunked_arg" and k in r and r[k] is False:
                 bits.append("chunked_arg=False")
+            elif k == "ulen" and r.get(k) == 0:
+                bits.append("ulen=0")
+        if r.get("first"):
+            bits.append("update_body after " + r["first"]["kind"])
         return f"{v.clause} " + " ".join(bits)
     c = t["cfg"]
     return (f"{v.clause} on StreamWriter.{ev['op']}({ev.get('form', 'bytes')}) chunked={c['chunked']} "
@@ -1597,7 +1664,7 @@ def selftest(ctx: Ctx) -> int:
                 print(f"selftest: trace {k} expected clause {c}, got {got[k][1]}")
                 ok = False
         # ---- (ii) spec-level mutants must be caught by TLC
-        for mut in ("lf-only", "dollar-anchor"):
+        for mut in ("lf-only", "dollar-anchor", "size-chars"):
             r = run_tlc("HttpWriterSerMC", ser_cfg(2, mut), workers=4, timeout=600, deadlock=False)
             print(f"mutant SerializeRule {mut}:", r.violated)
             ok = ok and r.violated == "InvTodayAllowed"
